@@ -380,6 +380,18 @@ class StateDom(object):
     def _call(self, e, env, frame):
         if e.keywords and any(k.arg is None for k in e.keywords):
             return UNK
+        if isinstance(e.func, ast.Name) and e.func.id == 'len' and \
+                len(e.args) == 1 and not e.keywords and \
+                'len' not in frame.subst:
+            v = self.ev(e.args[0], env, frame)
+            if v is RAISES:
+                return RAISES
+            if isinstance(v, (tuple, list, dict, set, frozenset)) or (
+                    isinstance(v, str) and not _is(v, (OTHER, OBJ))):
+                if isinstance(v, (list, tuple)) and any(x is UNK for x in v):
+                    return UNK
+                return len(v)
+            return UNK
         if isinstance(e.func, ast.Name) and e.func.id == 'isinstance' and \
                 len(e.args) == 2 and not e.keywords and \
                 e.func.id not in frame.subst:
